@@ -530,6 +530,10 @@ def spawn_layer_in_subprocess(result, script_parts, options, features,
             args.extend(['--default', d])
 
         args.extend(options.original_testrunner_args[1:])
+        if options.shuffle and options.shuffle_seed is not None:
+            # The subprocess must shuffle with the seed used (and reported)
+            # by this process, even if it was derived from the clock.
+            args.append('--shuffle-seed=%d' % options.shuffle_seed)
 
         debugargs = args  # save them before messing up for windows
         if sys.platform.startswith('win'):
